@@ -23,7 +23,8 @@ CFG = dict(
               "cylinder_outward", "cylinder_normals_outward", "hemisphere_outward",
               "cubeQuads_normals_outward", "uvSphere_inscribed",
               "cube_volume", "cubeQuads_volume", "cylinder_volume", "cylinder_volume_bounds",
-              "uvSphere_volume", "uvSphere_volume_bounds", "uvSphereUnwelded_volume"],
+              "uvSphere_volume", "uvSphere_volume_bounds", "uvSphereUnwelded_volume",
+              "hemisphere_volume", "hemisphere_volume_bounds"],
     streams=[dict(name="c18", n=dict(quick=30, thorough=60),
                   ulps={"c18.pos.sphere": _SIN, "c18.pos.sphereu": _SIN, "c18.pos.hemi": _SIN, "c18.nrm.sphere": _SINN,
                         "c18.pos.cyl": _ROT, "c18.nrm.cyl": _ROTN, "c18.pos.cubeq": _ROT, "c18.nrm.cubeq": _ROTN})],
